@@ -12,4 +12,7 @@ BoundaryAgrees == BoundaryEnd(d) = BoundaryDecl(d)
 SplitIsPartition == HeaderBlock(d) \o Body(d) = d
 NormHasNoBareLF == LET n == NormEOL(d) IN \A k \in 1..Len(n) : n[k] = LF => k > 1 /\ n[k - 1] = CR
 NormIdempotent == NormEOL(NormEOL(d)) = NormEOL(d)
+NormByLineAgrees == NormEOLByLine(d) = NormEOL(d)
+FlatAgrees == /\ BoundaryEndFlat(d) = BoundaryEnd(d) /\ SplitLinesFlat(d) = SplitLines(d)
+              /\ HeaderBlockFlat(d) = HeaderBlock(d) /\ BodyFlat(d) = Body(d) /\ InDomainFlat(d) = InDomain(d)
 =============================================================================
